@@ -20,7 +20,9 @@ var verifPoisonValue = math.Float64frombits(0x7ff8000000004242)
 func verifPoisonVectors(vector []StepVector) {
 	vector = vector[:cap(vector)]
 	for i := range vector {
-		vector[i] = StepVector{T: verifPoisonT}
+		// the timestamp only: a late reader goes on with samples that look all right
+		// and a time that cannot be
+		vector[i].T = verifPoisonT
 	}
 }
 
